@@ -342,7 +342,12 @@ def known_findings(pid):
 
 def write_evidence(pid, ev):
     os.makedirs(os.path.join(ROOT, "evidence"), exist_ok=True)
-    with open(os.path.join(ROOT, "evidence", pid + ".json"), "w") as f:
+    dest = os.path.join(ROOT, "evidence", pid + ".json")
+    if os.path.realpath(REPO) != "/repo":
+        # runs against a scratch copy (mutation testing) never touch the committed evidence
+        dest = os.path.join(WORK, pid, "evidence_scratch.json")
+        ev["coverage"]["scratch_repo"] = REPO
+    with open(dest, "w") as f:
         json.dump(ev, f, indent=1, sort_keys=True)
         f.write("\n")
 
